@@ -219,7 +219,7 @@ impl<R: Round> Context<R> {
         assert_limited_precision(self.precision);
 
         // this method don't deal with the case where lhs significand is too large
-        debug_assert!(lhs.digits() <= self.precision + rhs.digits());
+        debug_assert!(rhs.is_zero() || lhs.digits() <= self.precision + rhs.digits());
 
         let (mut q, mut r) = lhs.significand.div_rem(&rhs.significand);
         let mut e = lhs.exponent - rhs.exponent;
